@@ -3,6 +3,7 @@ package props
 import (
 	"bytes"
 	"fmt"
+	"sort"
 	"strings"
 	"time"
 
@@ -90,6 +91,49 @@ func FailingSends(m *PktModel, w *world.World, g Ghost) []UserAction {
 	nft("nft-unknown-destination", 1, "cls", "tok2", "zchainzzz", "")
 	nft("nft-unknown-relay", 1, "cls", "tok2", B, "zchainzzz")
 	nft("nft-destination-is-self", 1, "cls", "tok2", A, "")
+	out = append(out, notOwnerSends(w, "badsend:nft-not-owner")...)
+	return out
+}
+
+// notOwnerSends: for every NFT a user holds on any chain (natives and vouchers alike) the other user of that chain tries
+// to transfer it to every other chain. Labels are prefix:<native|voucher>:<chain>><destination>.
+func notOwnerSends(w *world.World, prefix string) []UserAction {
+	var out []UserAction
+	for _, c := range w.Chains {
+		hold := NftHoldings(c)
+		var keys []string
+		for k := range hold {
+			keys = append(keys, k)
+		}
+		sort.Strings(keys)
+		for _, k := range keys {
+			owner, ok := isUser(c, hold[k])
+			if !ok {
+				continue
+			}
+			thief := User(c, 1)
+			if thief.Addr.String() == owner.Addr.String() {
+				thief = User(c, 2)
+			}
+			parts := strings.SplitN(k, "|", 2)
+			class, id := parts[0], parts[1]
+			kind := "native"
+			if strings.HasPrefix(class, "tibc-") {
+				kind = "voucher"
+			}
+			for _, d := range w.Chains {
+				if d == c {
+					continue
+				}
+				cn, dn := c.Name, d.Name
+				label := fmt.Sprintf("%s:%s:%s/%s@%s>%s", prefix, kind, class, id, cn, dn)
+				out = append(out, UserAction{Label: label, On: cn, Run: func(w *world.World) (*world.Chain, world.TxRes) {
+					cc := w.C(cn)
+					return cc, w.Tx(cc, thief, nfttransfer.NewMsgNftTransfer(class, id, thief.Addr.String(), User(w.C(dn), 1).Addr.String(), dn, "", ""))
+				}})
+			}
+		}
+	}
 	return out
 }
 
@@ -118,10 +162,14 @@ func SendStepCheck(m *PktModel, w *world.World, ev *StepEvent) []explore.Finding
 	}
 	diff := world.DiffKVs(filterClients(ev.Before), filterClients(ev.After))
 	if strings.HasPrefix(ev.Label, "badsend:") {
+		name := strings.TrimPrefix(ev.Label, "badsend:")
+		if p := strings.SplitN(name, ":", 3); p[0] == "nft-not-owner" && len(p) == 3 {
+			name = p[0] + ":" + p[1] // native | voucher; the concrete token is in the detail
+		}
 		if ev.Res.OK() {
-			add("invalid-send-accepted:"+strings.TrimPrefix(ev.Label, "badsend:"), ev.Label)
+			add("invalid-send-accepted:"+name, ev.Label)
 		} else if len(diff) > 0 {
-			add("failed-send-changed-state:"+strings.TrimPrefix(ev.Label, "badsend:"), fmt.Sprint(diff))
+			add("failed-send-changed-state:"+name, fmt.Sprint(diff))
 		}
 		return fs
 	}
